@@ -118,7 +118,16 @@ def handle (inp out : String) : String :=
         if x == "z" then .closed else if x == "w" then .timeout else if x == "x" then .error else .data (x.toNat?.getD 1)
       let (st, wire, resp) := blockingExchange req (parseSends sends) stream rs (conn == "y")
       let ms := s!"{st} {toHex wire} {match resp with | some r => toHex r | none => "-"}"
-      let spec : Option String :=
+      -- the socket's own timeouts (what turns a silent peer into a timeout error instead of a blocked caller): judged here only
+      let toTok := (words out).find? (·.startsWith "to:")
+      let out := " ".intercalate ((words out).filter (fun w => !w.startsWith "to:"))
+      let toSpec : Option String := match toTok with
+        | some t => (match t.splitOn ":" with
+            | [_, r, s] => if (r.toInt?.getD (-1)) ≤ 0 then some s!"no-receive-timeout-on-the-blocking-socket-({t})"
+                           else if (s.toInt?.getD (-1)) ≤ 0 then some s!"no-send-timeout-on-the-blocking-socket-({t})" else none
+            | _ => none)
+        | none => none
+      let spec : Option String := toSpec.orElse fun _ =>
         match words out with
         | ["0", w, r] =>
           if w != toHex req then some "success-although-the-request-did-not-reach-the-wire-whole"
